@@ -3,10 +3,10 @@
 // ASSUME: operation KINDS are enumerated as separate solver queries (vf_param); element values are solver variables
 // ASSUME: concurrent_gslist is driven from one thread; compare_exchange never fails spuriously
 // ASSUME: reference model: std::forward_list (push_front/pop_front/front/clear, iteration newest first); pop_front on an empty list returns false
-// OB: ob_gslist_seq tier=quick unwind=8 timeout=180 params=7,7 bounds="gslist<int,2>: 3 push_front (2 blocks) then every pair of ops from 7 kinds {push_front, emplace_front, pop_front(heap), pop_front(promise_to_dealloc), clear(heap), move construct+assign, clear(promise_to_dealloc)}; after every op empty() and forward + const traversal" desc="gslist equals a forward_list model (contents, order, emptiness)"
+// OB: ob_gslist_seq quick_limit=25 tier=quick unwind=8 timeout=180 params=7,7 bounds="gslist<int,2>: 3 push_front (2 blocks) then every pair of ops from 7 kinds {push_front, emplace_front, pop_front(heap), pop_front(promise_to_dealloc), clear(heap), move construct+assign, clear(promise_to_dealloc)}; after every op empty() and forward + const traversal" desc="gslist equals a forward_list model (contents, order, emptiness)"
 // OB: ob_gslist_seq3 tier=thorough unwind=8 timeout=180 params=7,7,7 bounds="gslist<int,2>: all 343 kind-sequences of 3 ops from the empty list" desc="gslist equals a forward_list model (from empty)"
-// OB: ob_gslist_front tier=quick unwind=8 timeout=180 params=7,7 bounds="as ob_gslist_seq, additionally front() == newest element after every op that leaves the list non-empty" desc="gslist::front() is the newest element"
-// OB: ob_gslist_counted tier=quick unwind=8 timeout=180 params=7,7 bounds="gslist<Counted,2>: 3 emplace_front then every pair of ops from 7 kinds; ghost live-instance map; list destroyed at the end" desc="gslist constructs/destroys each element exactly once"
+// OB: ob_gslist_front quick_limit=25 tier=quick unwind=8 timeout=180 params=7,7 bounds="as ob_gslist_seq, additionally front() == newest element after every op that leaves the list non-empty" desc="gslist::front() is the newest element"
+// OB: ob_gslist_counted quick_limit=25 tier=quick unwind=8 timeout=180 params=7,7 bounds="gslist<Counted,2>: 3 emplace_front then every pair of ops from 7 kinds; ghost live-instance map; list destroyed at the end" desc="gslist constructs/destroys each element exactly once"
 // OB: ob_cgslist_seq tier=quick unwind=8 timeout=180 params=5,5 bounds="concurrent_gslist<int,2> from one thread: 3 push_front then every pair of ops from 5 kinds {push_front, pop_front(heap), pop_front(promise), clear(heap), move}" desc="concurrent_gslist (one thread) equals a forward_list model"
 // OB: ob_cgslist_counted tier=quick unwind=8 timeout=180 params=5,5 bounds="concurrent_gslist<Counted,2> from one thread: 3 push_front then every pair of ops from 5 kinds; ghost live-instance map" desc="concurrent_gslist (one thread) constructs/destroys each element exactly once"
 #include "vf.h"
